@@ -159,6 +159,12 @@ template <sz R, sz C> void access_case(std::string const &text, op<R, C> const &
     lmat const l2 = fm::structure_cast<lmat, fcppt::cast::static_cast_fun>(v);
     C14_EQ(rd(l2), a, fn + ":structure_cast:view", "structure_cast<long matrix> (view storage)");
     C14_EQ(rd(fm::structure_cast<smat<R, C>, fcppt::cast::static_cast_fun>(l)), a, fn + ":structure_cast:back", "structure_cast back to int");
+    rmat<R, C> an;
+    for (sz i = 0; i < R; ++i)
+      for (sz j = 0; j < C; ++j)
+        an.at(i, j) = 1 - a.at(i, j);
+    C14_EQ(rd(fm::structure_cast<smat<R, C>, c14::one_minus_fun>(s)), an, fn + ":structure_cast:user_converter:same_type", "structure_cast<int, 1-x>");
+    C14_EQ(rd(fm::structure_cast<lmat, c14::one_minus_fun>(s)), an, fn + ":structure_cast:user_converter", "structure_cast<long, 1-x>");
   }
 }
 
